@@ -206,7 +206,21 @@ class ExcFlow:
                     reraise = True
                 else:
                     target = n.exc.func if isinstance(n.exc, ast.Call) else n.exc
-                    k = self.key(self.repo.resolve_expr(fn.module, target, fn.cls))
+                    r_t = self.repo.resolve_expr(fn.module, target, fn.cls)
+                    if isinstance(r_t, FuncInfo) and isinstance(n.exc, ast.Call):
+                        # `raise helper(ex, ...)`: the helper hands the caught object back (after stamping it), or makes a new one
+                        params = r_t.params[1:] if (r_t.cls is not None and not r_t.is_static) else r_t.params
+                        passed = [params[i] for i, a in enumerate(n.exc.args) if i < len(params) and isinstance(a, ast.Name) and h.name and a.id == h.name]
+                        rets = [x.value for x in ast.walk(r_t.node) if isinstance(x, ast.Return) and x.value is not None]
+                        if passed and rets and all(isinstance(v, ast.Name) and v.id in passed for v in rets):
+                            reraise = True
+                            continue
+                        made = self._returned_classes(r_t)
+                        if made and not any(isinstance(v, ast.Name) and v.id in passed for v in rets):
+                            for c in made:
+                                new.append((c, n))
+                            continue
+                    k = self.key(r_t)
                     if k is None:
                         k = "ext:" + (dotted(target) or "Exception").split(".")[-1]
                     new.append((k, n))
@@ -252,6 +266,28 @@ class ExcFlow:
                         stack.extend(ast.iter_child_nodes(n))
                         continue
                 k = self.key(r0)
+                if k is None and isinstance(n.exc, ast.Call) and isinstance(target, ast.Attribute) and not isinstance(r0, (ClassInfo, External)):
+                    # `raise obj.make(...)`: a method of some object builds the exception - every method of that name in the
+                    # package that returns exception objects is a candidate (abstract ones return nothing and are skipped)
+                    made_m: List[Exc] = []
+                    for cand in self.g.by_name.get(target.attr, []):
+                        made_m.extend(self._returned_classes(cand))
+                    if made_m:
+                        for c in made_m:
+                            if not self.suppress_explicit(fn, n, c):
+                                out.append((c, n, norm(n)[:80]))
+                        stack.extend(ast.iter_child_nodes(n))
+                        continue
+                if k is None and isinstance(target, ast.Name):
+                    # `raise kind(...)` where `kind` was taken out of a table of the module (`kind, text = _TABLE[code]`): the
+                    # classes listed in that table
+                    made_t = self._classes_from_table(fn, target.id)
+                    if made_t:
+                        for c in made_t:
+                            if not self.suppress_explicit(fn, n, c):
+                                out.append((c, n, norm(n)[:80]))
+                        stack.extend(ast.iter_child_nodes(n))
+                        continue
                 if k is None:
                     if isinstance(target, ast.Name):
                         # raising a local variable: type from inference
@@ -264,6 +300,38 @@ class ExcFlow:
                 if not self.suppress_explicit(fn, n, k):
                     out.append((k, n, norm(n)[:80]))
             stack.extend(ast.iter_child_nodes(n))
+        return out
+
+    def _classes_from_table(self, fn: FuncInfo, var: str) -> List[Exc]:
+        """the exception classes a local variable can hold when it is bound (directly or by unpacking) from a subscript /
+        .get() of a module- or class-level literal table"""
+        out: List[Exc] = []
+        for st in ast.walk(fn.node):
+            if not isinstance(st, ast.Assign):
+                continue
+            bound = any(isinstance(x, ast.Name) and x.id == var for t in st.targets for x in ast.walk(t))
+            if not bound:
+                continue
+            v = st.value
+            base = v.value if isinstance(v, ast.Subscript) else (v.func.value if isinstance(v, ast.Call) and isinstance(v.func, ast.Attribute) and v.func.attr == "get" else None)
+            if base is None or not isinstance(base, (ast.Name, ast.Attribute)):
+                return []
+            try:
+                lit = self.repo.resolve_expr(fn.module, base, fn.cls) if not (isinstance(base, ast.Attribute) and isinstance(base.value, ast.Name) and base.value.id in ("self", "cls")) else (self.repo.lookup_class_attr(fn.cls, base.attr) if fn.cls is not None else None)
+            except Exception:
+                lit = None
+            if not isinstance(lit, (ast.Dict, ast.Tuple, ast.List)):
+                return []
+            for x in ast.walk(lit):
+                if isinstance(x, (ast.Name, ast.Attribute)) and isinstance(getattr(x, "ctx", None), ast.Load):
+                    try:
+                        rr = self.repo.resolve_expr(fn.module, x, fn.cls)
+                    except Exception:
+                        rr = None
+                    if isinstance(rr, ClassInfo) and any(getattr(b, "name", "") in ("Exception", "BaseException") or (isinstance(b, External) and b.dotted.split(".")[-1].endswith(("Error", "Exception"))) for b in self.repo.mro(rr)):
+                        kk = self.key(rr)
+                        if kk is not None and kk not in out:
+                            out.append(kk)
         return out
 
     def _returned_classes(self, fn: FuncInfo, depth: int = 0) -> List[Exc]:
